@@ -80,7 +80,7 @@ static std::string synthetic_trait_query(const std::string& tab, unsigned lo, un
 		if (e.empty()) continue;
 		const std::vector<std::string> f(split(e, ':'));
 		if (f.size() != 4) return "BAD-CASE";
-		v.push_back(FieldTrait(static_cast<unsigned short>(strtoul(f[0].c_str(), 0, 10)), FieldTrait::ft_int,
+		v.push_back(FieldTrait(static_cast<unsigned short>(strtoul(f[0].c_str(), 0, 10)), static_cast<unsigned>(FieldTrait::ft_int),
 			static_cast<unsigned short>(strtoul(f[1].c_str(), 0, 10)), static_cast<unsigned short>(strtoul(f[2].c_str(), 0, 10)),
 			static_cast<unsigned short>(strtoul(f[3].c_str(), 0, 10))));
 	}
